@@ -188,8 +188,11 @@ def expected_fill(forms, vals, fields, limits=None):
         obj = forms[name]
         req = {f.name() for f in obj.required_fields()}
         mp = {}
+        pinned = ((limits or {}).get('__mapping__') or {}).get(name.split(':')[0])
         for pf in obj.pdf_fields():
-            fn = pf.field_name if '.' in pf.field_name else f'{name}.{pf.field_name}'
+            # which line a box shows: as generated / as pinned from the unchanged tree - the live mapping object is not trusted for it
+            declared = pinned.get(pf.pdf_field_name, pf.field_name) if pinned else pf.field_name
+            fn = declared if '.' in declared else f'{name}.{declared}'
             if fn not in fields:
                 err = err or ('absent-field', name, pf.pdf_field_name, fn)
                 break
